@@ -59,6 +59,9 @@ def _m1():
                               'affinity': 'b', 'identity_group': 'g',
                               'priority': 60}
     cfg['templates']['on']['identity_group'] = 'g'
+    # the master may handle what has reached ZooKeeper between the two writes
+    # of one identity-group API call
+    cfg['split_kinds'] = ('idg', 'idg-')
     cfg['events'] = mastercfg.ev(
         ('app+', 'id'), ('app+', 'ib'), ('app+', 'on'), ('app+', 'hi'),
         ('app-', 0), ('app-', 1), ('prio', 0, 100),
